@@ -2,6 +2,6 @@ SPECIFICATION Spec
 CONSTANTS
   FrameLimit = 200
   Alphabet <- MC_AlphaFull
-  Shape <- MC_Shape
+  Shapes <- MC_Shapes
 INVARIANTS Safe OnBoundary ScanAgrees Report
 CHECK_DEADLOCK FALSE
